@@ -75,6 +75,14 @@ def epTemplate (r : Rng) : Rng × Rules.Pos :=
   let b := if more = 0 then putIfEmpty b s2 ⟨slider k2, .black⟩ else b
   let (r, bk) := r.below 64
   let b := putIfEmpty b bk ⟨.king, .black⟩
+  -- every second time White can answer with a double push of its own that lands beside a black pawn: one
+  -- en-passant target is then replaced by another
+  let (r, again) := r.below 2
+  let (r, x) := r.below 8
+  let (r, side2) := r.below 2
+  let nx := if x = 0 then 1 else if x = 7 then 6 else if side2 = 0 then x - 1 else x + 1
+  let b := if again = 0 && (b[sqAt x 2 % 64]!).isNone && (b[sqAt x 3 % 64]!).isNone then
+      putIfEmpty (putIfEmpty b (sqAt x 1) ⟨.pawn, .white⟩) (sqAt nx 3) ⟨.pawn, .black⟩ else b
   let (r, extra) := r.below 4
   let (r, b) := scatter r b extra
   (r, { board := b, player := .white, rights := Rights.none, ep := some ⟨sqAt f 5 % 64, Nat.mod_lt _ (by decide)⟩,
@@ -170,7 +178,10 @@ def cornerRookTemplate (r : Rng) : Rng × Rules.Pos :=
   let (r, b) := scatter r b n
   let (r, wr) := r.below 2
   let b := if wr = 0 then b else (putIfEmpty (putIfEmpty b 4 ⟨.king, .white⟩) 7 ⟨.rook, .white⟩)
-  (r, { board := b, player := .white, rights := ⟨⟨false, false⟩, ⟨true, true⟩⟩, ep := none, halfmove := 2, plies := 78 })
+  -- either side to move: with Black to move the castling squares next to the white king are attacked by a king only
+  let (r, stm) := r.below 2
+  (r, { board := b, player := if stm = 0 then .white else .black, rights := ⟨⟨false, false⟩, ⟨true, true⟩⟩, ep := none,
+        halfmove := 2, plies := 78 + stm })
 
 /-- a pawn on the seventh rank pinned along a diagonal by a bishop or queen standing on the last rank next to
     it: its only moves are the four capturing promotions that take the pinner -/
